@@ -61,11 +61,19 @@ requires this build (the one that triggered it) -/
 theorem c13_build_env_cwd (c : Cfg) (s : Sched) (ks : List Nat) (runs : List Run)
     (b : Build) (d : String) (env : Env) (r : Nat)
     (h : Ev.buildStart b d env r ∈ (session c s ks runs).trace) :
-    d = dirOf c.cwd b ∧ ∃ run ∈ runs, run.id = r ∧ env = run.env ∧ b ∈ run.builds :=
+    d = dirOf c.cwd c.home b ∧ ∃ run ∈ runs, run.id = r ∧ env = run.env ∧ b ∈ run.builds :=
   (session_inv c s ks runs).envcwd b d env r h
 
 example : Ev.buildStart exBuildA "/w/d1" [("E", "1")] 0 ∈ (session exCfg .batch [0] exRuns).trace := by
   decide
+
+/-- the pinned tree did not expand `~` in the location of a build (the benchmarks of the
+same suite do run in the expanded directory): the script was started with the literal
+string as cwd. Replayed by `harness/corpus/C13/tilde-location.json`; repaired by
+"fix: expand ~ in the directory of a build command". -/
+theorem c13_tilde_location_pinned :
+    dirOfPinned "/w" ⟨"make", some "~/suite"⟩ = "~/suite" ∧
+    dirOf "/w" "/root" ⟨"make", some "~/suite"⟩ = "/root/suite" := by decide
 
 /-- "If it fails, no run depending on it is executed and each is reported failed":
 once a build has ended unsuccessfully (non-zero return code or OSError), no benchmark
